@@ -287,9 +287,9 @@ func (c *Checker) checkStreamQueries() {
 // descriptor decoders ------------------------------------------------------
 
 type decSpec struct {
-	anchor  string
-	tag     int // -1: independent of the tag
-	what    string
+	anchor string
+	tag    int // -1: independent of the tag
+	what   string
 	// expect builds the expected result for the decoder's own tag from the
 	// body bytes d[0..15]; neutral is the expected result for other tags.
 	expect  func(d []*BV, s *Summary) (Val, string)
